@@ -17,7 +17,7 @@ import time
 
 import vf
 
-QUICK = "C18 C19 C34 C25 C28"
+QUICK = "C18 C19 C34 C25 C28 C26"
 ALL = "C18 C11 C19 C16 C34 C28 C27 C25 C26 C29"
 
 
@@ -143,7 +143,7 @@ def body(run):
     jobs = [(w, sd) for w in workloads for sd in seeds
             if os.path.exists(os.path.join(vf.VERIF, "checks", w + ".py"))]
     import concurrent.futures as cf
-    with cf.ThreadPoolExecutor(max_workers=5) as ex:
+    with cf.ThreadPoolExecutor(max_workers=6) as ex:
         ran = list(ex.map(one, jobs))
     if not [r for r in ran if r["evaluations"] > 0]:
         raise vf.Inconclusive("no workload could be run under the race detector")
